@@ -576,6 +576,68 @@ func run(r *Rng, tier string, n int) {
 			checkMsg(m, true, false)
 			st["multi_window_bitmap_messages"]++
 		}
+		// names made of escapes (4 characters of text per octet) that share a suffix with an earlier name, under
+		// compression: the limits are about wire octets, the text is up to four times longer
+		for _, n := range []int{5, 13, 30, 62} {
+			lab := strings.Repeat(`\200`, n)
+			suffix := lab + "." + lab + "." + lab + "." + "zone."
+			if _, ok := dns.IsDomainName("www." + suffix); !ok {
+				continue
+			}
+			for _, compress := range []bool{true, false} {
+				m := new(dns.Msg)
+				m.Compress = compress
+				m.SetQuestion(suffix, dns.TypeNS)
+				m.Answer = []dns.RR{
+					&dns.NS{Hdr: dns.RR_Header{Name: suffix, Rrtype: dns.TypeNS, Class: 1, Ttl: 5}, Ns: "ns." + suffix},
+					&dns.A{Hdr: dns.RR_Header{Name: "www." + suffix, Rrtype: dns.TypeA, Class: 1, Ttl: 5}, A: net.IPv4(192, 0, 2, 1).To4()},
+					&dns.MX{Hdr: dns.RR_Header{Name: `\001\002.` + suffix, Rrtype: dns.TypeMX, Class: 1, Ttl: 5}, Preference: 1, Mx: `m\.x.` + suffix},
+				}
+				checkMsg(m, true, false)
+				st["escaped_shared_suffix_messages"]++
+			}
+		}
+		// SVCB / HTTPS values given in any order by the caller: on the wire the parameters are in increasing key
+		// order and so are the keys INSIDE a mandatory parameter (RFC 9460 sections 2.2 and 8), read back with
+		// the harness's own walker
+		for _, mand := range [][]dns.SVCBKey{{dns.SVCB_IPV4HINT, dns.SVCB_ALPN}, {dns.SVCB_PORT, dns.SVCB_IPV4HINT, dns.SVCB_ALPN}, {dns.SVCB_ALPN, dns.SVCB_PORT}, {dns.SVCB_IPV6HINT, dns.SVCB_ALPN, dns.SVCB_PORT, dns.SVCB_IPV4HINT}} {
+			rr := &dns.SVCB{Hdr: dns.RR_Header{Name: "svc.example.", Rrtype: dns.TypeSVCB, Class: 1, Ttl: 5}, Priority: 16, Target: "foo.example.org.", Value: []dns.SVCBKeyValue{
+				&dns.SVCBIPv6Hint{Hint: []net.IP{net.ParseIP("2001:db8::1")}},
+				&dns.SVCBPort{Port: 443},
+				&dns.SVCBMandatory{Code: append([]dns.SVCBKey{}, mand...)},
+				&dns.SVCBIPv4Hint{Hint: []net.IP{net.IPv4(192, 0, 2, 1).To4()}},
+				&dns.SVCBAlpn{Alpn: []string{"h2", "h3-19"}},
+			}}
+			buf := make([]byte, 512)
+			off, err := dns.PackRR(rr, buf, 0, nil, false)
+			st["svcb_wire_order_checked"]++
+			if err != nil {
+				Viol("C01/SVCB/wire-order", "an SVCB record with parameters given in another order does not pack: "+err.Error(), map[string]string{"rr": rr.String()})
+				continue
+			}
+			// owner 13 octets + 10 fixed + priority 2 + target 17
+			p := 13 + 10 + 2 + 17
+			last := -1
+			for p+4 <= off {
+				key := int(buf[p])<<8 | int(buf[p+1])
+				l := int(buf[p+2])<<8 | int(buf[p+3])
+				if key <= last {
+					Viol("C01/SVCB/wire-order", "SVCB parameters are not in strictly increasing key order on the wire", map[string]string{"rdata": Hx(buf[23:off])})
+				}
+				last = key
+				if key == 0 {
+					prev := -1
+					for q := p + 4; q+2 <= p+4+l; q += 2 {
+						k := int(buf[q])<<8 | int(buf[q+1])
+						if k <= prev {
+							Viol("C01/SVCB/mandatory-order", "the keys inside the mandatory parameter are not in strictly increasing order on the wire (RFC 9460 section 8)", map[string]string{"mandatory": Hx(buf[p+4 : p+4+l])})
+						}
+						prev = k
+					}
+				}
+				p += 4 + l
+			}
+		}
 		m := new(dns.Msg)
 		m.Compress = true
 		m.SetQuestion("a.", dns.TypeA)
